@@ -606,7 +606,16 @@ func (e *Env) evalCall(n *ast.CallExpr) Val {
 		if e.old == nil {
 			return e.eval(n.Args[0])
 		}
-		return e.old.eval(n.Args[0])
+		// quantifier-bound variables stay visible inside old(...)
+		oe := *e.old
+		oe.vars = map[string]Val{}
+		for k, v := range e.vars {
+			oe.vars[k] = v
+		}
+		for k, v := range e.old.vars {
+			oe.vars[k] = v
+		}
+		return oe.eval(n.Args[0])
 	case "len":
 		v := e.eval(n.Args[0])
 		switch s := v.(type) {
